@@ -110,10 +110,10 @@ def gen_prune_file(rng):
                     x = rng.choice([-2**63, 2**63 - 1]) if k < 0.03 else (base + rng.randrange(0, 16)) * (2**33 if k < 0.3 else 1)
                     vals.append(struct.pack('<q', x))
                 elif lf.ptype == P.FLOAT:
-                    x = rng.choice([float('inf'), float('-inf'), -0.0, 0.0]) if k < 0.05 else (base + rng.random() * 15) * (-1 if k < 0.3 else 1)
+                    x = rng.choice([float('inf'), float('-inf'), -0.0, 0.0, 0.0, -0.0]) if k < 0.12 else (base + rng.random() * 15) * (-1 if k < 0.3 else 1)
                     vals.append(struct.pack('<f', x))
                 elif lf.ptype == P.DOUBLE:
-                    x = rng.choice([float('inf'), float('-inf'), -0.0, 0.0, 5e-324]) if k < 0.05 else (base + rng.random() * 15) * (-1 if k < 0.3 else 1)
+                    x = rng.choice([float('inf'), float('-inf'), -0.0, 0.0, 0.0, -0.0, 5e-324]) if k < 0.12 else (base + rng.random() * 15) * (-1 if k < 0.3 else 1)
                     vals.append(struct.pack('<d', x))
                 elif lf.ptype == P.BYTE_ARRAY:
                     L = rng.choice([0, 1, 2, 3, 8])
